@@ -227,3 +227,47 @@ with index assignment are outside the subset).""",
          "theorem": "C14.generated_custom_choice_eq_model"},
     ],
 })
+
+# ---- C19: job metadata on the wire ---------------------------------------------------------
+AREAS.append({
+    "area": "JobMeta",
+    "properties": ["C19"],
+    "file": "ractor/src/factory/job.rs",
+    "imports": ["RactorModel.Model.RustSem", "RactorModel.Model.Codec"],
+    "error_type": "Unit",
+    "deriving": "Repr",
+    "doc": """
+`SystemTime` is `Nat` nanoseconds since `UNIX_EPOCH` (`duration_since(UNIX_EPOCH).expect(..)` is the
+identity: clocks before the epoch are out of scope), `Duration` is `Nat` nanoseconds
+(`as_nanos`/`from_nanos` = identity), bytes are `UInt8`, `u64::to_be_bytes`/`from_be_bytes` are
+`Codec.encodeBE 8`/`Codec.beVal`, `Vec → [u8; 8]` `try_into().unwrap()` is the identity (the vectors
+have 8 elements on every path, see the theorems). `JobOptions` keeps `submit_time` and `ttl`;
+`Default::default()` is the parameter `dflt`; `reset_ttl_timer` only touches `ttl_timer` (not kept).
+The job key is its `into_bytes` image (`TKey` = `Vec<u8>`), the message is `()`.""",
+    "fn_params": "(dflt : JobOptions)",
+    "fn_args": "dflt",
+    "types": {"u8": "UInt8", "SystemTime": "Nat", "Duration": "Nat", "TMsg": "Unit", "BoxedDowncastErr": "Unit"},
+    "aliases": {"TKey": "Vec<u8>"},
+    "source_types": [{"name": "JobOptions", "fields": ["submit_time", "ttl"]},
+                     {"name": "Job", "fields": ["key", "msg", "options"]}],
+    "paths": {"UNIX_EPOCH": ("0", "SystemTime"), "BoxedDowncastErr": ("()", "BoxedDowncastErr")},
+    "calls": {"Default::default": ("dflt", "JobOptions"), "Duration::from_nanos": ("{0}", "Duration"),
+              "u64::from_be_bytes": ("Codec.beVal {0}", "u64"), "TKey::from_bytes": ("{0}", "Vec<u8>")},
+    "operators": {("+", "SystemTime"): ("({0} + {1})", "SystemTime")},
+    "mut_methods": {"reset_ttl_timer": "{0}"},
+    "methods": [
+        {"name": "duration_since", "on": "SystemTime", "lean": "({0} - {1})", "ty": "DurationResult"},
+        {"name": "expect", "on": "DurationResult", "lean": "{0}", "ty": "Duration", "arity": 1},
+        {"name": "as_nanos", "on": "Duration", "lean": "{0}", "ty": "u128"},
+        {"name": "to_be_bytes", "on": "u64", "lean": "(Codec.encodeBE 8 {0} : List UInt8)", "ty": "Vec<u8>"},
+        {"name": "try_into", "on": "Vec", "lean": "{0}", "ty": "ArrayResult"},
+        {"name": "unwrap", "on": "ArrayResult", "lean": "{0}", "ty": "Vec<u8>"},
+        {"name": "into_bytes", "on": "Vec", "lean": "{0}", "ty": "Vec<u8>"},
+    ],
+    "fns": [
+        {"container": "BytesConvertable for JobOptions", "name": "into_bytes", "theorem": "C19.generated_job_options_into_bytes_eq_model"},
+        {"container": "BytesConvertable for JobOptions", "name": "from_bytes", "theorem": "C19.generated_deserialize_meta_eq_model"},
+        {"container": "Job", "name": "serialize_meta", "theorem": "C19.generated_serialize_meta_eq_model"},
+        {"container": "Job", "name": "deserialize_meta", "theorem": "C19.generated_deserialize_meta_eq_model"},
+    ],
+})
